@@ -8,6 +8,9 @@ import time
 from pathlib import Path
 
 VERIF = Path(__file__).resolve().parent.parent
+# VERIF_OUT=<dir>: write evidence/ and replays/ there instead of /verif (used when a check is pointed, with VERIF_REPO, at a
+# scratch tree carrying a deliberately broken change, so that the committed evidence of the real tree is left alone)
+OUT = Path(os.environ["VERIF_OUT"]).resolve() if os.environ.get("VERIF_OUT") else VERIF
 
 
 def _jsonable(x, depth=0):
@@ -149,7 +152,7 @@ def match_finding(failure: dict, findings):
 
 
 def write_replay(prop: str, idx: int, failure: dict) -> Path:
-    d = VERIF / "replays" / prop
+    d = OUT / "replays" / prop
     d.mkdir(parents=True, exist_ok=True)
     p = d / f"violation_{idx:03d}.json"
     p.write_text(json.dumps({"property": prop, "failure": failure}, indent=1, sort_keys=True))
@@ -188,8 +191,8 @@ def write_evidence(prop, tier, seed, level, res: Result, wall, rule, assumptions
         "wall_s": round(wall, 2),
         "violations": int(violations),
     }
-    d = VERIF / "evidence"
-    d.mkdir(exist_ok=True)
+    d = OUT / "evidence"
+    d.mkdir(parents=True, exist_ok=True)
     tmp = d / f".{prop}.json.tmp{os.getpid()}"
     tmp.write_text(json.dumps(ev, indent=1, sort_keys=True))
     os.replace(tmp, d / f"{prop}.json")
